@@ -3916,8 +3916,14 @@ def add_measures(part):
 
     """
 
+    # the length of a bar in the unit of the beat map (musical beats when
+    # the part uses them)
     timesigs = np.array(
-        [(ts.start.t, ts.beats) for ts in part.iter_all(TimeSignature)], dtype=int
+        [
+            (ts.start.t, ts.musical_beats if part._use_musical_beat else ts.beats)
+            for ts in part.iter_all(TimeSignature)
+        ],
+        dtype=int,
     )
 
     if len(timesigs) == 0:
